@@ -106,11 +106,13 @@ enumerated over {0,1} (the bridge reports it), and a **group-velocity history** 
 direction followed by calls without one must equal a fresh object) added after the C14 seed showed that the option
 product alone misses state carried between calls.  Found defect F1.  `Mesh._set_phonon` has the same
 eigenvector/dynamical-matrix aliasing but does not report D, so no property is violated there (§9).  Quick 2 s."""
-AS["C15"] = """**As built** (`checks/c15.py`).  All histories of length ≤ 2 over {F(B), S, C, Nw, Ng, N0, M, Q} plus
-11 length-3 histories that interleave a *query* between state changes (cache staleness needs query–change–query;
-thorough: all 512 length-3 histories), on the triclinic 2-atom 2×1×1 cell with two symbolic force-constant arrays
+AS["C15"] = """**As built** (`checks/c15.py`).  All histories of length ≤ 2 over {F(B), S, C, Nw, Ng, N0, M, Q, P} (P =
+`generate_displacements` + `forces=` symbolic + `produce_force_constants`, i.e. dataset replacement and the
+finite-displacement solver inside the history; the caller's force array must stay untouched) plus
+15 length-3 histories that interleave a *query* between state changes (cache staleness needs query–change–query;
+thorough: all 729 length-3 histories), on the triclinic 2-atom 2×1×1 cell with two symbolic force-constant arrays
 (288 reals).  Gonze–Lee NAC runs with concrete Born charges (the short-range force constants are computed through the
-bridge on symbolic fc).  `produce_force_constants` and `copy()` are not part of the histories.  Getter/setter copy
+bridge on symbolic fc).  `copy()` is documented to drop force constants and NAC parameters and is not part of the histories.  Getter/setter copy
 semantics are ground facts.  Quick 82 s."""
 AS["C16"] = """**As built** (`checks/c16.py`).  The dataset conversion as planned (displaced-atom index enumerated,
 not symbolic) and, new, **BORN expansion**: `file_IO._expand_borns` in E2 on symbolic Born tensors that respect the
